@@ -1,5 +1,5 @@
 """C26 — resuming from an autosave gives the same results as an uninterrupted run (structural clauses)."""
-from ..rules import perm, save
+from ..rules import drivers, perm, save
 
 META = {
     "title": "Resuming from an autosave gives the same results as an uninterrupted run",
@@ -28,3 +28,5 @@ def check(ctx):
     save.pickle_pairing(ctx)
     ctx.floor("PERM-entry", 3)
     ctx.floor("PICKLE-pairing", 4)
+    drivers.results_helpers(ctx)
+    drivers.autosave_content(ctx)
